@@ -10,7 +10,7 @@ from mc.proc_driver import replay as _replay
 META = {
     "kind": "graph",
     "engine": "E2 BFS to fixpoint over tick histories of the real ProcessManager.start() on a fake OS",
-    "rule": "for every (workers in 1..3, max_fails in {-1,0,1,2,3}) all tick histories over the alphabet {subset of workers dies} x {none, SIGHUP, SIGINT, SIGTERM, file change} x {subset of restarted workers crash at start} (+ bounded deviations) are explored breadth-first with de-duplication on the canonical state (per-slot process state, action queue, every local variable of the suspended start() frame and every plain attribute of the manager - so state a change adds there is never merged away -, monitor state) until no new state appears (fixpoint); in addition every history of 6 (quick) / 8 (thorough) ticks over the 5-letter alphabet {nothing, SIGHUP, file change, worker 0 dies, SIGINT} is run without state matching (guard against state the canonical form cannot see). Oracle C17: at every Process.start() no other live process has the same slot name and the previous occupant was joined; the number and names of slots never change; a worker that died in tick t (ground truth of the fake OS, whether or not the manager looked at it) is replaced by the end of tick t+1 unless the manager returned. distinct_nontrivial = distinct (configuration, exit, facts) outcomes. Further configurations with WorkerArgs options the manager reads (wait_tasks_timeout 0 / 2.0 with shutdown_timeout, max_tasks_per_child) and workers that exit on their own with status 0.",
+    "rule": "for every (workers in 1..3, max_fails in {-1,0,1,2,3}) all tick histories over the alphabet {subset of workers dies} x {none, SIGHUP, SIGINT, SIGTERM, file change} x {subset of restarted workers crash at start} (+ bounded deviations) are explored breadth-first with de-duplication on the canonical state (per-slot process state, action queue, every local variable of the suspended start() frame and every plain attribute of the manager - so state a change adds there is never merged away -, monitor state) until no new state appears (fixpoint); in addition every history of 6 (quick) / 8 (thorough) ticks over the 5-letter alphabet {nothing, SIGHUP, file change, worker 0 dies, SIGINT} is run without state matching (guard against state the canonical form cannot see). Oracle C17: at every Process.start() no other live process has the same slot name and the previous occupant was joined; the number and names of slots never change; a worker that died in tick t (ground truth of the fake OS, whether or not the manager looked at it) is replaced by the end of tick t+1 unless the manager returned. distinct_nontrivial = distinct (configuration, exit, facts) outcomes. Further configurations with WorkerArgs options the manager reads (wait_tasks_timeout 0 / 2.0 with shutdown_timeout, max_tasks_per_child) and workers that exit on their own with status 0. After start-up every slot holds a started process; more than 20000 queue/process operations within one tick without reaching sleep() is the violation supervision-loop-never-sleeps; --reload wiring: the observer gets one FileWatcher for '.' whose callback queues a reload-all on the manager's queue and whose gitignore switch follows --do-not-use-gitignore.",
     "assumptions": [
         "fake multiprocessing.Process/Queue/Event, os.kill, signal.signal, sleep stand for the OS (Linux semantics: kill on a reaped pid raises ProcessLookupError, on a zombie succeeds; is_alive()/join() reap)",
         "per tick: any subset of workers dies, at most one signal/file event, any subset of restarted workers crashes before its start-up wait; deviations (signal between drain and scan, Queue.empty() lag) bounded per history",
@@ -40,11 +40,18 @@ def shards(tier: str, seed: int) -> List[Any]:
                  {"max_tasks_per_child": 3}, {"exit0": True}):
         for w, mf in (((1, 2), (2, -1), (2, 2)) if tier == "quick" else ((1, 2), (2, -1), (2, 1), (2, 2), (3, 3))):
             out.append({"workers": w, "max_fails": mf, "dev": 0 if tier == "quick" else 1, "depth": depth, "opts": opts})
+    out.append({"wiring": True})
     return out
 
 
 def run_shard(shard: Dict[str, Any]) -> Dict[str, Any]:
     acc = Acc()
+    if shard.get("wiring"):
+        # file-change events reach the manager through a watchdog observer: --reload wiring
+        from mc.cli_wiring import check_watcher_wiring
+
+        check_watcher_wiring(acc)
+        return acc.as_dict()
     if shard.get("long"):
         explore_long("C17", shard["workers"], shard["max_fails"], shard["long"], acc)
         return acc.as_dict()
